@@ -160,6 +160,10 @@ func (rm *RpcMultiplexer) NewStreamReadWriter(
 					if err := rm.readErrorIfDone(); err != nil {
 						return nil, err
 					}
+					if err := ctx.Err(); err != nil {
+						// torn down because the caller's context ended
+						return nil, err
+					}
 					return nil, fmt.Errorf("respChan closed")
 				}
 				return rpc, nil
